@@ -7,7 +7,7 @@ constant evaluation is impossible (UB inside the evaluation, or a non-constexpr 
 are exported as a table, loaded back, and compared bit-for-bit with the RUN-TIME value obtained from the
 shim of the same compiler (same square-root algorithm, probed).
 """
-import os, re, struct, subprocess, ctypes, math, concurrent.futures as cf
+import os, re, struct, subprocess, ctypes, math, json, concurrent.futures as cf
 
 TYPES = ["int8_t", "int16_t", "int32_t", "int64_t", "uint8_t", "uint16_t", "uint32_t", "uint64_t", "float", "double", "fixed_t", "long long", "unsigned long long", "char"]
 TBITS = [8, 16, 32, 64, 8, 16, 32, 64, 0, 0, 0, 64, 64, 8]
@@ -316,6 +316,8 @@ def compile_chunk(compiler, std, algo, inc, lines, workdir, tag):
             rejected[idx] = " | ".join(msgs)[:400]
         rejected["_reasons"] = reasons[:20]
         active = [i for i in active if i not in bad]
+        if not active:
+            return [None] * len(lines), rejected
     raise RuntimeError("constant-evaluation chunk still fails after removing rejected lines")
 
 def run_lane(tier, inc, shim_dir, build_shims, workdir, ncpu, only_ub=False):
@@ -377,7 +379,7 @@ def run_lane(tier, inc, shim_dir, build_shims, workdir, ncpu, only_ub=False):
                     e["count"] += 1
                     if len(e["examples"]) < 3:
                         e["examples"].append({"entry": cs.entry, "cfg": f"{c}-{s}-{a} (constant evaluation)", "shape": "constexpr", "expected": "accepted as a constant expression (the run-time call returns " + hex(rtv) + ")",
-                                              "got": "rejected: " + diag[:600], "note": "", "rcase": "", "inputs": {"expr": cs.expr, "case": cs.desc}, "rin": []})
+                                              "got": "rejected: " + diag[:600], "note": "", "rcase": "", "inputs": {"expr": cs.expr, "case": cs.desc, "rt": json.dumps(list(cs.rt)), "flags": json.dumps([cs.sqrt_dep, cs.dbl, cs.res32])}, "rin": []})
                     continue
                 stats["consteval.accepted"] += 1
                 if only_ub:
@@ -393,7 +395,31 @@ def run_lane(tier, inc, shim_dir, build_shims, workdir, ncpu, only_ub=False):
                     e["count"] += 1
                     if len(e["examples"]) < 3:
                         e["examples"].append({"entry": cs.entry, "cfg": f"{c}-{s}-{a} (constant evaluation)", "shape": "constexpr vs run time" + (" (run-time value from the abacus configuration of the same compiler)" if other else ""),
-                                              "expected": hex(rtv) + " (run-time value)", "got": hex(v) + " (constant-evaluated value)", "note": "", "rcase": "", "inputs": {"expr": cs.expr, "case": cs.desc}, "rin": []})
+                                              "expected": hex(rtv) + " (run-time value)", "got": hex(v) + " (constant-evaluated value)", "note": "", "rcase": "", "inputs": {"expr": cs.expr, "case": cs.desc, "rt": json.dumps(list(cs.rt)), "flags": json.dumps([cs.sqrt_dep, cs.dbl, cs.res32])}, "rin": []})
                 elif len(samples) < 3 and cs.entry in ("tan", "mixed/_double", "hypot"):
                     samples.append(f"constexpr {cs.expr} == run time {hex(rtv)} in {name}")
     return sorted(classes.values(), key=lambda x: x["class"]), stats, samples
+
+
+def replay_one(ex, inc, build_shims, workdir):
+    """Re-evaluate one recorded constant-evaluation example against the current tree. Returns (reproduced, text)."""
+    c, std, algo = ex["cfg"].split(" ")[0].split("-")
+    rt = tuple(json.loads(ex["inputs"]["rt"])); sqrt_dep, dbl, res32 = json.loads(ex["inputs"]["flags"])
+    name = f"{c}-O0-{std}-{algo}"
+    sdir, errors = build_shims([name, f"{c}-O0-c++17-abacus"])
+    if errors:
+        return True, "shim does not build: " + list(errors.values())[0][-800:]
+    me = ShimRT(os.path.join(sdir, name + ".so"))
+    ref = ShimRT(os.path.join(sdir, f"{c}-O0-c++17-abacus.so")) if (sqrt_dep and me.algo != 1) else me
+    rtv = ref.call(rt)
+    os.makedirs(workdir, exist_ok=True)
+    vals, rej = compile_chunk("g++" if c == "gcc" else "clang++", std, algo, inc, [ex["inputs"]["expr"]], workdir, "replay")
+    rej.pop("_reasons", None)
+    if 0 in rej:
+        return True, "rejected as a constant expression: " + rej[0]
+    v = vals[0]
+    if res32:
+        v &= 0xffffffff; rtv &= 0xffffffff
+    if v != rtv:
+        return True, f"constant-evaluated {hex(v)} != run-time {hex(rtv)}"
+    return False, f"accepted, constant-evaluated value {hex(v)} equals the run-time value"
